@@ -584,3 +584,328 @@ Definition q2_oracle (ops obs : list (list Z)) : bool :=
   Nat.eqb (length ops) (length obs)
   && nodup_b (map fst vals)
   && prefix_b (map snd vals) pushed.
+
+(* =====================================================================================
+   Interleaving model: producer / consumer / unblock_pop threads over queue<T> (limit = None) or
+   limited_queue<T> (limit = Some n).  One step = one critical section (entered at the hook point q_lock, code 70),
+   or the resolution of a promise taken inside a critical section, which the code performs AFTER unlocking
+   (hook point q_res, code 71: queue.h 153-154, 228-229, 279-280, 315-316), or a thread noticing that the future
+   it waits for is ready (harness point q_wait, code 72).  A schedule is a list of choices: choice k runs the
+   (k mod |enabled|)-th enabled thread (ascending thread id), exactly as harness/ctl.h does.
+   ===================================================================================== *)
+Record titem := mkIt { it_p : nat; it_k : nat; it_v : Z }.      (* pushed by thread it_p as its it_k-th push *)
+Inductive outcome := OItem (it : titem) | OExc (e : Z).
+
+Inductive ppc := PIdle | PRes | PWait (blocked : bool).
+Inductive cpc := CIdle | CRes | CWait.
+Inductive upc := UIdle | URes.
+
+Inductive thr :=
+| TProd (vals : list Z) (k : nat) (pc : ppc) (nb : nat) (rets : list Z)   (* k pushes entered; nb blocked pushes consumed *)
+| TCons (n : nat) (issued : nat) (pc : cpc)
+| TUnb (n : nat) (e : Z) (pc : upc) (rets : list Z).
+
+Record tstate := mkT {
+  t_items : list titem;                      (* _queue *)
+  t_waiters : list nat;                      (* _awaiters: consumer thread ids, oldest first *)
+  t_blocked : list (titem * nat);            (* _blocked: (item, producer thread id) *)
+  t_limit : option Z;
+  t_infl : list (nat * (nat * outcome));     (* promise<T> taken by thread i for consumer c, not resolved yet *)
+  t_cinfl : list (nat * nat);                (* promise<void> of blocked producer p taken by consumer i, not resolved yet *)
+  t_rlog : list (nat * outcome);             (* resolutions of pop futures, in resolution order: (consumer, outcome) *)
+  t_pdone : list nat;                        (* completions of blocked pushes: producer ids, in completion order *)
+  t_alog : list (nat * titem);               (* ghost: item -> pop assignments in critical-section order *)
+  t_plog : list titem;                       (* ghost: items in push critical-section order *)
+  t_thr : list thr
+}.
+
+Definition count_n (x : nat) (l : list nat) : nat := length (filter (Nat.eqb x) l).
+Fixpoint afind {B} (k : nat) (l : list (nat * B)) : option B :=
+  match l with [] => None | (k', b) :: t => if Nat.eqb k k' then Some b else afind k t end.
+Fixpoint aremove {B} (k : nat) (l : list (nat * B)) : list (nat * B) :=
+  match l with [] => [] | (k', b) :: t => if Nat.eqb k k' then t else (k', b) :: aremove k t end.
+
+Definition t_enabled (s : tstate) (i : nat) : bool :=
+  match nth_error (t_thr s) i with
+  | Some (TProd vals k PIdle _ _) => Nat.ltb k (length vals)
+  | Some (TProd _ _ PRes _ _) => true
+  | Some (TProd _ _ (PWait false) _ _) => true
+  | Some (TProd _ _ (PWait true) nb _) => Nat.ltb nb (count_n i (t_pdone s))        (* its push future was completed *)
+  | Some (TCons n issued CIdle) => Nat.ltb issued n
+  | Some (TCons _ _ CRes) => true
+  | Some (TCons _ issued CWait) => Nat.eqb (count_n i (map fst (t_rlog s))) issued  (* its pop future is ready *)
+  | Some (TUnb n _ UIdle rets) => Nat.ltb (length rets) n
+  | Some (TUnb _ _ URes _) => true
+  | None => false
+  end.
+
+Definition set_thr (s : tstate) (i : nat) (t : thr) : list thr := set_nth (t_thr s) i t.
+
+Definition full (s : tstate) : bool :=
+  match t_limit s with Some l => zlen (t_items s) >=? l | None => false end.
+
+(* one step of thread i; returns the hook-point code of the step *)
+Definition tstep (s : tstate) (i : nat) : tstate * Z :=
+  match nth_error (t_thr s) i with
+  | Some (TProd vals k PIdle nb rets) =>
+      let it := mkIt i k (nth k vals 0) in
+      match t_waiters s with
+      | c :: w =>                                                                   (* 150-153 / 276-279 *)
+          (mkT (t_items s) w (t_blocked s) (t_limit s) (t_infl s ++ [(i, (c, OItem it))]) (t_cinfl s) (t_rlog s) (t_pdone s)
+               (t_alog s ++ [(c, it)]) (t_plog s ++ [it]) (set_thr s i (TProd vals (S k) PRes nb rets)), 70)
+      | [] =>
+          if full s                                                                 (* 283-286 *)
+          then (mkT (t_items s) [] (t_blocked s ++ [(it, i)]) (t_limit s) (t_infl s) (t_cinfl s) (t_rlog s) (t_pdone s)
+                    (t_alog s) (t_plog s ++ [it]) (set_thr s i (TProd vals (S k) (PWait true) nb rets)), 70)
+          else (mkT (t_items s ++ [it]) [] (t_blocked s) (t_limit s) (t_infl s) (t_cinfl s) (t_rlog s) (t_pdone s)   (* 156 / 288 *)
+                    (t_alog s) (t_plog s ++ [it]) (set_thr s i (TProd vals (S k) (PWait false) nb (rets ++ [0]))), 70)
+      end
+  | Some (TProd vals k PRes nb rets) =>                                             (* 154 / 280 *)
+      let s1 := match afind i (t_infl s) with
+                | Some (c, o) => mkT (t_items s) (t_waiters s) (t_blocked s) (t_limit s) (aremove i (t_infl s)) (t_cinfl s)
+                                     (t_rlog s ++ [(c, o)]) (t_pdone s) (t_alog s) (t_plog s) (t_thr s)
+                | None => s
+                end in
+      (mkT (t_items s1) (t_waiters s1) (t_blocked s1) (t_limit s1) (t_infl s1) (t_cinfl s1) (t_rlog s1) (t_pdone s1)
+           (t_alog s1) (t_plog s1) (set_thr s1 i (TProd vals k (PWait false) nb (rets ++ [1]))), 71)
+  | Some (TProd vals k (PWait b) nb rets) =>
+      (mkT (t_items s) (t_waiters s) (t_blocked s) (t_limit s) (t_infl s) (t_cinfl s) (t_rlog s) (t_pdone s) (t_alog s) (t_plog s)
+           (set_thr s i (TProd vals k PIdle (if b then S nb else nb) (if b then rets ++ [2] else rets))), 72)
+  | Some (TCons n issued CIdle) =>
+      match t_items s with
+      | [] =>                                                                       (* 200-201 / 301-302 *)
+          (mkT [] (t_waiters s ++ [i]) (t_blocked s) (t_limit s) (t_infl s) (t_cinfl s) (t_rlog s) (t_pdone s) (t_alog s) (t_plog s)
+               (set_thr s i (TCons n (S issued) CWait)), 70)
+      | it :: t =>
+          match t_blocked s with
+          | (y, p) :: b =>                                                          (* 305-315 *)
+              (mkT (t ++ [y]) (t_waiters s) b (t_limit s) (t_infl s) (t_cinfl s ++ [(i, p)]) (t_rlog s ++ [(i, OItem it)]) (t_pdone s)
+                   (t_alog s ++ [(i, it)]) (t_plog s) (set_thr s i (TCons n (S issued) CRes)), 70)
+          | [] =>                                                                   (* 203-209 / 318 *)
+              (mkT t (t_waiters s) [] (t_limit s) (t_infl s) (t_cinfl s) (t_rlog s ++ [(i, OItem it)]) (t_pdone s)
+                   (t_alog s ++ [(i, it)]) (t_plog s) (set_thr s i (TCons n (S issued) CWait)), 70)
+          end
+      end
+  | Some (TCons n issued CRes) =>                                                   (* 316 *)
+      let '(ci, pd) := match afind i (t_cinfl s) with
+                       | Some p => (aremove i (t_cinfl s), t_pdone s ++ [p])
+                       | None => (t_cinfl s, t_pdone s)
+                       end in
+      (mkT (t_items s) (t_waiters s) (t_blocked s) (t_limit s) (t_infl s) ci (t_rlog s) pd (t_alog s) (t_plog s)
+           (set_thr s i (TCons n issued CWait)), 71)
+  | Some (TCons n issued CWait) =>
+      (mkT (t_items s) (t_waiters s) (t_blocked s) (t_limit s) (t_infl s) (t_cinfl s) (t_rlog s) (t_pdone s) (t_alog s) (t_plog s)
+           (set_thr s i (TCons n issued CIdle)), 72)
+  | Some (TUnb n e UIdle rets) =>
+      match t_waiters s with
+      | [] => (mkT (t_items s) [] (t_blocked s) (t_limit s) (t_infl s) (t_cinfl s) (t_rlog s) (t_pdone s) (t_alog s) (t_plog s)   (* 225 *)
+                   (set_thr s i (TUnb n e UIdle (rets ++ [0]))), 70)
+      | c :: w => (mkT (t_items s) w (t_blocked s) (t_limit s) (t_infl s ++ [(i, (c, OExc e))]) (t_cinfl s) (t_rlog s) (t_pdone s)   (* 226-228 *)
+                       (t_alog s) (t_plog s) (set_thr s i (TUnb n e URes rets)), 70)
+      end
+  | Some (TUnb n e URes rets) =>                                                    (* 229 *)
+      let s1 := match afind i (t_infl s) with
+                | Some (c, o) => mkT (t_items s) (t_waiters s) (t_blocked s) (t_limit s) (aremove i (t_infl s)) (t_cinfl s)
+                                     (t_rlog s ++ [(c, o)]) (t_pdone s) (t_alog s) (t_plog s) (t_thr s)
+                | None => s
+                end in
+      (mkT (t_items s1) (t_waiters s1) (t_blocked s1) (t_limit s1) (t_infl s1) (t_cinfl s1) (t_rlog s1) (t_pdone s1)
+           (t_alog s1) (t_plog s1) (set_thr s1 i (TUnb n e UIdle (rets ++ [1]))), 71)
+  | None => (s, 0)
+  end.
+
+Fixpoint t_enabled_list (s : tstate) (n : nat) (from : nat) : list nat :=
+  match n with
+  | O => []
+  | S m => (if t_enabled s from then [from] else []) ++ t_enabled_list s m (S from)
+  end.
+Definition t_all_enabled (s : tstate) : list nat := t_enabled_list s (length (t_thr s)) 0.
+
+Definition t_pick (s : tstate) (k : Z) : option nat :=
+  match t_all_enabled s with
+  | [] => None
+  | en => Some (nth (Z.to_nat (Z.abs k mod zlen en)) en 0%nat)
+  end.
+
+(* run a schedule; an exhausted schedule continues with choice 0 until nothing is enabled (fuel bounds the length) *)
+Fixpoint t_run_sched (fuel : nat) (s : tstate) (sched : list Z) (tr : list (list Z)) : tstate * list (list Z) :=
+  match fuel with
+  | O => (s, tr)
+  | S f =>
+      let k := match sched with [] => 0 | k :: _ => k end in
+      match t_pick s k with
+      | None => (s, tr)
+      | Some i => let '(s1, code) := tstep s i in t_run_sched f s1 (tl sched) (tr ++ [[Z.of_nat i; code]])
+      end
+  end.
+
+Definition t_decode_thr (l : list Z) : list thr :=
+  match l with
+  | 1 :: vals => [TProd vals 0 PIdle 0 []]
+  | [2; n] => if 0 <=? n then [TCons (Z.to_nat n) 0 CIdle] else []
+  | [3; n; e] => if 0 <=? n then [TUnb (Z.to_nat n) e UIdle []] else []
+  | _ => []
+  end.
+Definition t_decode_sched (l : list Z) : list Z := match l with 9 :: r => r | _ => [] end.
+Definition t_decode_limit (l : list Z) : list Z := match l with [0; n] => [n] | _ => [] end.
+
+Definition t_init (limit : option Z) (thrs : list thr) : tstate := mkT [] [] [] limit [] [] [] [] [] [] thrs.
+
+Definition t_work (t : thr) : nat :=
+  match t with TProd vals _ _ _ _ => 3 * length vals | TCons n _ _ => 3 * n | TUnb n _ _ _ => 2 * n end.
+Definition t_fuel (thrs : list thr) : nat := fold_right (fun t a => (t_work t + a)%nat) 4%nat thrs.
+
+Definition t_finished (t : thr) : bool :=
+  match t with
+  | TProd vals k PIdle _ _ => Nat.eqb k (length vals)
+  | TCons n issued CIdle => Nat.eqb issued n
+  | TUnb n _ UIdle rets => Nat.eqb (length rets) n
+  | _ => false
+  end.
+Fixpoint t_stuck (l : list thr) (i : nat) : list Z :=
+  match l with [] => [] | t :: r => (if t_finished t then [] else [Z.of_nat i]) ++ t_stuck r (S i) end.
+
+Definition enc_outcome (o : outcome) : Z := match o with OItem it => it_v it | OExc e => - e end.
+Definition t_received (s : tstate) (c : nat) : list Z :=
+  map (fun x => enc_outcome (snd x)) (filter (fun x => Nat.eqb c (fst x)) (t_rlog s)).
+
+(* per-thread result line.  limited_queue::push returns a future, so "handed over" and "enqueued" look alike: both 0 *)
+Definition t_thr_obs (lim : bool) (s : tstate) (i : nat) (t : thr) : list Z :=
+  match t with
+  | TProd _ _ _ _ rets => Z.of_nat i :: 1 :: (if lim then map (fun r => if r =? 1 then 0 else r) rets else rets)
+  | TCons _ _ _ => Z.of_nat i :: 2 :: t_received s i
+  | TUnb _ _ _ rets => Z.of_nat i :: 3 :: rets
+  end.
+Fixpoint t_thr_obs_all (lim : bool) (s : tstate) (l : list thr) (i : nat) : list (list Z) :=
+  match l with [] => [] | t :: r => t_thr_obs lim s i t :: t_thr_obs_all lim s r (S i) end.
+
+Definition t_final_obs (s : tstate) : list Z :=
+  9 :: zlen (t_items s) :: map it_v (t_items s) ++ map (fun b => it_v (fst b)) (t_blocked s).
+
+Definition t_limit_of (lim : bool) (ops : list (list Z)) : option (option Z) :=
+  if lim then match flat_map t_decode_limit ops with
+              | n :: _ => if 1 <=? n then Some (Some n) else None
+              | [] => None
+              end
+  else Some None.
+
+Definition t_exec (lim : bool) (ops : list (list Z)) : option tstate * list (list Z) :=
+  match t_limit_of lim ops with
+  | None => (None, [])
+  | Some l =>
+      let thrs := flat_map t_decode_thr ops in
+      let '(s, tr) := t_run_sched (t_fuel thrs) (t_init l thrs) (flat_map t_decode_sched ops) [] in
+      (Some s, tr)
+  end.
+
+Definition tq_run (lim : bool) (ops : list (list Z)) : list (list Z) :=
+  match t_exec lim ops with
+  | (None, _) => [rejected]
+  | (Some s, tr) =>
+      tr ++ (match t_stuck (t_thr s) 0 with [] => [] | st => [777 :: st] end)
+         ++ t_thr_obs_all lim s (t_thr s) 0 ++ [t_final_obs s]
+  end.
+
+(* ---------- oracle for the controlled-thread engines, evaluated on the IMPLEMENTATION's trace ----------
+   (a) no value is received twice; (b) without deadlock the received values plus the drained rest are exactly the
+   pushed values (multiset); (c) every consumer sees every producer's values in that producer's push order;
+   (d) FIFO on the linearisation the trace reports: replaying the critical sections (code-70 steps, in trace order)
+   on the FIFO specification qs_step gives every consumer exactly the outcomes it reported, and the drained rest. *)
+Fixpoint subseq_b (a b : list Z) : bool :=
+  match a, b with
+  | [], _ => true
+  | _ :: _, [] => false
+  | x :: t, y :: u => if x =? y then subseq_b t u else subseq_b a u
+  end.
+
+Definition is_trace2 (l : list Z) : bool := match l with [a; c] => (70 <=? c) && (c <=? 72) && negb (a =? 777) | _ => false end.
+Fixpoint take_trace (obs : list (list Z)) : list (list Z) * list (list Z) :=
+  match obs with
+  | l :: t => if is_trace2 l then let '(a, b) := take_trace t in (l :: a, b) else ([], obs)
+  | [] => ([], [])
+  end.
+
+(* per-thread progress while replaying the trace: how many critical sections each thread has entered *)
+Definition nth_count (l : list nat) (i : nat) : nat := nth i l 0%nat.
+Fixpoint bump (l : list nat) (i : nat) : list nat :=
+  match l, i with
+  | [], _ => []
+  | x :: t, O => S x :: t
+  | x :: t, S j => x :: bump t j
+  end.
+
+(* trace -> ops of the FIFO specification + the consumer of every pop *)
+Fixpoint lin (thrs : list thr) (tr : list (list Z)) (cnt : list nat) : list qop * list nat :=
+  match tr with
+  | [i; 70] :: t =>
+      let n := Z.to_nat i in
+      let '(ops, who) := lin thrs t (bump cnt n) in
+      match nth_error thrs n with
+      | Some (TProd vals _ _ _ _) => (QPush (nth (nth_count cnt n) vals 0) :: ops, who)
+      | Some (TCons _ _ _) => (QPop :: ops, n :: who)
+      | Some (TUnb _ e _ _) => (QUnblockPop e :: ops, who)
+      | None => (QBad :: ops, who)
+      end
+  | _ :: t => lin thrs t cnt
+  | [] => ([], [])
+  end.
+
+Definition enc_fstate (f : fstate) : list Z :=
+  match f with FValue v => [v] | FExc e => [- e] | _ => [] end.
+Fixpoint expected_for (c : nat) (who : list nat) (fs : list fstate) : list Z :=
+  match who, fs with
+  | w :: t, f :: u => (if Nat.eqb w c then enc_fstate f else []) ++ expected_for c t u
+  | _, _ => []
+  end.
+
+Definition result_line (obs : list (list Z)) (i : nat) (kind : Z) : option (list Z) :=
+  match filter (fun l => match l with a :: b :: _ => (a =? Z.of_nat i) && (b =? kind) | _ => false end) obs with
+  | (_ :: _ :: r) :: _ => Some r
+  | _ => None
+  end.
+Definition final_line (obs : list (list Z)) : option (list Z) :=
+  match filter (fun l => match l with 9 :: _ :: _ => true | _ => false end) obs with
+  | (_ :: _ :: r) :: _ => Some r
+  | _ => None
+  end.
+Definition has_deadlock (obs : list (list Z)) : bool :=
+  existsb (fun l => match l with 777 :: _ => true | _ => false end) obs.
+
+Fixpoint zlist_eqb' (a b : list Z) : bool :=
+  match a, b with
+  | [], [] => true
+  | x :: t, y :: u => (x =? y) && zlist_eqb' t u
+  | _, _ => false
+  end.
+
+Definition positives (l : list Z) : list Z := filter (fun v => 0 <? v) l.
+
+Fixpoint consumer_ids (thrs : list thr) (i : nat) : list nat :=
+  match thrs with
+  | [] => []
+  | TCons _ _ _ :: r => i :: consumer_ids r (S i)
+  | _ :: r => consumer_ids r (S i)
+  end.
+Definition producer_vals (thrs : list thr) : list (list Z) :=
+  flat_map (fun t => match t with TProd vals _ _ _ _ => [vals] | _ => [] end) thrs.
+
+Definition tq_oracle (lim : bool) (ops obs : list (list Z)) : bool :=
+  match t_limit_of lim ops with
+  | None => match obs with [[1]] => true | _ => false end
+  | Some _ =>
+      let thrs := flat_map t_decode_thr ops in
+      let '(tr, rest) := take_trace obs in
+      let cons := consumer_ids thrs 0 in
+      let recv := map (fun c => match result_line rest c 2 with Some r => r | None => [-999999] end) cons in
+      let drained := match final_line rest with Some r => r | None => [-999999] end in
+      let got := flat_map positives recv in
+      let pv := producer_vals thrs in
+      let '(sops, who) := lin thrs tr (map (fun _ => 0%nat) thrs) in
+      let sfin := snd (qs_run_from qs0 sops) in
+      nodup_b (got ++ drained)                                                                         (* a *)
+      && (if has_deadlock rest then forallb (fun v => memz v (concat pv)) (got ++ drained)
+          else perm_b (got ++ drained) (concat pv))                                                    (* b *)
+      && forallb (fun r => forallb (fun vals => subseq_b (filter (fun v => memz v vals) (positives r ++ drained)) vals) pv) recv   (* c *)
+      && forallb (fun cr => zlist_eqb' (snd cr) (expected_for (fst cr) who (s_futs sfin))) (combine cons recv)   (* d *)
+      && zlist_eqb' drained (match bal sfin with BItems l => l | BWait _ => [] end)
+  end.
